@@ -72,7 +72,7 @@ class Prop(BaseProp):
     HEADLINE = ["mutants_generated", "mutants_invalid_asserted", "mutants_valid_skipped", "rejected_as_required",
                 "cmake_crosschecks", "cli_runs", "directory_mode_runs", "stdout_mode_runs", "runs_via_cminx_main"]
 
-    NMOD = {"quick": 6, "thorough": 40}
+    NMOD = {"quick": 4, "thorough": 40}
 
     def plan(self, tier):
         plan = []
